@@ -1,6 +1,6 @@
 (* C03 — SRC sections display the encoded words, flags and every callout faithfully. *)
 From Coq Require Import List NArith ZArith Bool Arith.
-From PV Require Gen.Layouts Spec.PublishedLayouts.
+From PV Require Gen.Layouts Spec.PublishedLayouts Model.StreamProg Gen.Readers Proofs.ReaderSrcFacts.
 From PV Require Import Base.Bytes Base.Lit Base.Json Base.Reader Base.PelTypes Model.Parse Model.Render Spec.Encode Spec.DocOf Gen.Tables
                        Proofs.SrcFacts Proofs.RenderFacts Proofs.SrcRenderFacts Proofs.RegistryFacts.
 Import ListNotations.
@@ -66,6 +66,32 @@ Theorem C03_source_layouts :
   Gen.Layouts.ok_PCEIdentity = true /\ Gen.Layouts.rd_PCEIdentity = Spec.PublishedLayouts.rd_PCEIdentity.
 Proof. repeat split; reflexivity. Qed.
 Print Assumptions C03_source_layouts.
+
+(* SOURCE-TEXT tie of the two callout substructure constructors, beyond the frozen layout tables above.
+   harness/extract_readers.py translates the statements of FRUIdentity.__init__ and PCEIdentity.__init__ (src.py) into programs of
+   the reader language of Model/StreamProg.v (Gen/Readers.v, regenerated every run); for EVERY byte string, running the translated
+   program is the model's parse_fru / parse_pce: it completes exactly when the model's reader succeeds, and then the flags, size
+   and raw identity fields it has assigned, the bytes left and (FRU) the flattened size it has accumulated are the model's; a
+   DataStream assertion, or the early return of a PCE whose size field is below 24, is the model's rejection. *)
+Theorem C03_source_fru_reader : forall d,
+  match StreamProg.run Gen.Readers.prog_fru (StreamProg.init d) with
+  | StreamProg.RFall s =>
+      parse_fru d = Some (ReaderSrcFacts.fru_of s, StreamProg.s_rest s) /\
+      StreamProg.int_of s (L "self.flattenedSize") = fru_flat (ReaderSrcFacts.fru_of s)
+  | StreamProg.RErr => parse_fru d = None
+  | _ => False
+  end.
+Proof. exact ReaderSrcFacts.fru_prog_correct. Qed.
+Print Assumptions C03_source_fru_reader.
+Theorem C03_source_pce_reader : forall d,
+  match StreamProg.run Gen.Readers.prog_pce (StreamProg.init d) with
+  | StreamProg.RFall s => parse_pce d = Some (ReaderSrcFacts.pce_of s, StreamProg.s_rest s)
+  | StreamProg.RErr => parse_pce d = None
+  | StreamProg.RRet false _ => parse_pce d = None
+  | _ => False
+  end.
+Proof. exact ReaderSrcFacts.pce_prog_correct. Qed.
+Print Assumptions C03_source_pce_reader.
 
 (* a registry message, when one is defined for the reason code, is filled with the referenced hex words: the entry is the first
    one of the SRC's type whose reason code contains "0x" + characters 4..7 of the reference code; "SRCWordN" refers to hex word N;
